@@ -952,6 +952,26 @@ fn zero_sized_sweep(col: &mut Collector) -> (u64, u64) {
 
 /// Static part: `Par::with` (debug assertions on) panics exactly when the new
 /// child conflicts with the children already there.
+/// Build an operand tree for the Par::with sweeps.  An operand whose own par nodes are conflict-free must build; if
+/// building it panics (e.g. because an earlier, rightly rejected `with` left something behind) that is a finding.
+fn build_operand(t: &Tree, nx: &mut usize, ctx: &Arc<Ctx>, col: &mut Collector) -> Option<BNode> {
+    match catch_unwind(AssertUnwindSafe(|| build_tree(t, nx, ctx))) {
+        Ok(n) => Some(n),
+        Err(p) => {
+            if t.par_compatible() {
+                col.add(Finding {
+                    prop: "C16".into(),
+                    sig: "par-with-rejected-compatible-children".into(),
+                    msg: format!("building the conflict-free tree {} panicked (after earlier, rightly rejected Par::with calls on this thread): {}", t.short(), crate::sched::payload_str(&*p)),
+                    replay: json!({"kind":"par-with-operand","tree":t.to_json()}),
+                    size: t.leaves(),
+                });
+            }
+            None
+        }
+    }
+}
+
 pub fn check_par_with(alpha: &[(Vec<u8>, Vec<u8>)], col: &mut Collector) -> (u64, u64) {
     let subtrees: Vec<Tree> = {
         let mut v: Vec<Tree> = alpha.iter().map(|(r, w)| Tree::Leaf(r.clone(), w.clone())).collect();
@@ -976,7 +996,10 @@ pub fn check_par_with(alpha: &[(Vec<u8>, Vec<u8>)], col: &mut Collector) -> (u64
             // par[a].with(b)
             cases += 1;
             let mut nx = 0;
-            let (na, nb) = (build_tree(a, &mut nx, &ctx), build_tree(b, &mut nx, &ctx));
+            let (na, nb) = match (build_operand(a, &mut nx, &ctx, col), build_operand(b, &mut nx, &ctx, col)) {
+                (Some(x), Some(y)) => (x, y),
+                _ => continue,
+            };
             let r = catch_unwind(AssertUnwindSafe(|| {
                 let _ = Par::new(na).with(nb);
             }));
@@ -1005,7 +1028,10 @@ pub fn check_par_with(alpha: &[(Vec<u8>, Vec<u8>)], col: &mut Collector) -> (u64
             for c in &leafs {
                 cases += 1;
                 let mut nx = 0;
-                let (na, nb, nc) = (build_tree(a, &mut nx, &ctx), build_tree(b, &mut nx, &ctx), build_tree(c, &mut nx, &ctx));
+                let (na, nb, nc) = match (build_operand(a, &mut nx, &ctx, col), build_operand(b, &mut nx, &ctx, col), build_operand(c, &mut nx, &ctx, col)) {
+                    (Some(x), Some(y), Some(z)) => (x, y, z),
+                    _ => continue,
+                };
                 let r = catch_unwind(AssertUnwindSafe(|| {
                     let _ = Par::new(na).with(nb).with(nc);
                 }));
@@ -1155,7 +1181,10 @@ pub fn check_par_with(alpha: &[(Vec<u8>, Vec<u8>)], col: &mut Collector) -> (u64
                 for long_first in [false, true] {
                     cases += 1;
                     let mut nx = 0;
-                    let (na, nb) = (build_tree(&a, &mut nx, &ctx), build_tree(&b, &mut nx, &ctx));
+                    let (na, nb) = match (build_operand(&a, &mut nx, &ctx, col), build_operand(&b, &mut nx, &ctx, col)) {
+                        (Some(x), Some(y)) => (x, y),
+                        _ => continue,
+                    };
                     let r = catch_unwind(AssertUnwindSafe(|| {
                         if long_first {
                             let _ = Par::new(nb).with(na);
